@@ -165,6 +165,11 @@ def _run(ctx, pq):
     cases = L.load_corpus("C14") + [gen_dataset_case(rng, i < (4 if quick else 20), i) for i in range(n_b)]
     # forked workers (harness.common.pmap): a native crash or a hang while opening/reading is a failing input
     results = L.run_dataset_jobs(ctx, check_dataset, cases, "b", _replayable)
+    # ---- verification: every single-attribute difference of one SchemaElement must be rejected
+    vcases = [{"attr": a} for a in SCHEMA_ATTRS]
+    for vc, res in zip(vcases, L.run_dataset_jobs(ctx, check_verify, vcases, "v", lambda c: {"verify_case": c})):
+        ctx.case({"verify": vc}, trivial=False)
+        ctx.count("V.attribute", vc["attr"])
     for case, res in zip(cases, results):
         ctx.case(case, trivial=(len(case["files"]) == 1 and case["root_mode"] == "inferred"))
         ctx.count("B.shape", case["shape"])
@@ -204,12 +209,12 @@ def gen_dataset_case(rng, confirm, i):
         if shape == "flat":
             d = []
         elif shape == "hive":
-            d = ["k=%s" % rng.choice(["a", "b", "zz"]), "n=%d" % rng.choice([1, 2, 30])][:levels]
+            d = ["k=%s" % rng.choice(["a", "b", "zz", "[x]", "a*b", "q?"]), "n=%d" % rng.choice([1, 2, 30])][:levels]   # values are data, not globs
         elif shape == "drill":
-            d = [rng.choice(["a", "b", "zz"]), rng.choice(["u", "w"])][:levels]
+            d = [rng.choice(["a", "b", "zz", "[x]", "a*b"]), rng.choice(["u", "w"])][:levels]
         else:
             d = ["sub%d" % j]
-        name = "f%d%s" % (j, ext) if shape != "subdatasets" else ""
+        name = ("f%d%s%s" % (j, rng.choice(["", "", "[1]", "-x y"]), ext)) if shape != "subdatasets" else ""
         if cat_mode == "differ":
             cats = rng.sample(["p", "q", "r", "s", "t"], rng.choice([2, 3]))
         elif cat_mode == "same":
@@ -235,7 +240,9 @@ def gen_dataset_case(rng, confirm, i):
         root_mode = "given-slash"
     return {"shape": shape, "files": files, "root_mode": root_mode, "cat_mode": cat_mode, "verify": verify,
             "bad_schema": rng.randrange(1, k) if bad_schema else None, "dup": dup, "relative": relative,
-            "junk": rng.random() < 0.3, "dir_slash": rng.random() < 0.3}
+            "junk": rng.random() < 0.3, "dir_slash": rng.random() < 0.3,
+            # one file with the same columns in another order (columns are matched by name; with verify such a list is refused)
+            "colperm": rng.randrange(k) if (not verify and shape != "subdatasets" and rng.random() < 0.2) else None}
 
 
 def _frame(spec, bad=False):
@@ -284,6 +291,8 @@ def check_dataset(case, root, pq, ctx=None, verbose=False):
     for j, spec in enumerate(case["files"]):
         d = os.path.join(root, *spec["dir"])
         df = _frame(spec, bad=(case["bad_schema"] == j))
+        if case.get("colperm") == j:
+            df = df[list(df.columns)[::-1]]
         if shape == "subdatasets":
             df["k"] = pd.Series([["a", "b"][x % 2] for x in range(len(df))], dtype="str")
             if len(df) == 0:
@@ -369,6 +378,16 @@ def check_dataset(case, root, pq, ctx=None, verbose=False):
         if case["bad_schema"] is not None:
             return pf           # different dtypes without verification: outside the statement
         nrows = sum(len(singles[j]) for j in order)
+        try:        # the row-group iterator of the merged handle walks the same rows in the same order
+            it_ids = [int(x) for fr in pf.iter_row_groups(columns=["id"]) for x in fr["id"]]
+            if it_ids != [int(x) for x in df["id"]]:
+                problems.append("%s: iter_row_groups() ids %r..., to_pandas() ids %r..." % (via, it_ids[:8], [int(x) for x in df["id"]][:8]))
+                if ctx is not None:
+                    ctx.fail(dict(cls, stage="iter"), _replayable(case), problems[-1])
+        except Exception as e:      # noqa
+            problems.append("%s: iter_row_groups() raised %s: %s" % (via, type(e).__name__, str(e)[:120]))
+            if ctx is not None:
+                ctx.fail(dict(cls, stage="iter"), _replayable(case), problems[-1])
         if pf.count() != nrows or int(pf.fmd.num_rows) != nrows:
             problems.append("%s: row count %r / num_rows %r, expected %d" % (via, pf.count(), pf.fmd.num_rows, nrows))
         # first everything but the categorical column, then the categorical column too (finding C14-categorical-labels)
@@ -405,12 +424,14 @@ def check_dataset(case, root, pq, ctx=None, verbose=False):
         os.chdir(root)
         plist = [os.path.relpath(p, root) for p in plist]
     try:
-        return _vias(case, root, pq, ctx, compare, plist, paths, order, uniq_order, base, given_root, verify, problems, vias, say)
+        return _vias(case, root, pq, ctx, compare, plist, paths, order, uniq_order, base, given_root, verify, problems, vias, say,
+                     singles, cls0, cols)
     finally:
         os.chdir("/")
 
 
-def _vias(case, root, pq, ctx, compare, plist, paths, order, uniq_order, base, given_root, verify, problems, vias, say):
+def _vias(case, root, pq, ctx, compare, plist, paths, order, uniq_order, base, given_root, verify, problems, vias, say,
+          singles, cls0, cols):
     import fsspec
     from fastparquet import ParquetFile, writer, util
     shape = case["shape"]
@@ -420,6 +441,42 @@ def _vias(case, root, pq, ctx, compare, plist, paths, order, uniq_order, base, g
     # ---- via a list of ParquetFile instances (fix 3306fff: a dataset instance stands for its directory)
     compare("instances", lambda: ParquetFile([ParquetFile(p) for p in plist], verify=verify, **({"root": given_root} if given_root else {})),
             order, base, verify=verify)
+    # ---- a SEQUENCE of operations on the same ParquetFile handles: open the list, merge it, open it again; every result must
+    #      be the concatenation, and the input handles must be what they were (row-group paths, data)
+    if case["bad_schema"] is None:
+        handles = [ParquetFile(p) for p in plist]
+        before = [[rg.columns[0].file_path for rg in h.row_groups] for h in handles]
+        kw = {"root": given_root} if given_root else {}
+        compare("sequence:open", lambda: ParquetFile(handles, verify=verify, **kw), order, base, verify=verify)
+
+        def seq_merge():
+            out = writer.merge(handles, verify_schema=verify, **kw)
+            return ParquetFile(os.path.dirname(out.fn) or ".")
+        compare("sequence:merge", seq_merge, order, base, verify=verify)
+        compare("sequence:reopen", lambda: ParquetFile(handles, verify=verify, **kw), order, base, verify=verify)
+        for junk in ("_metadata", "_common_metadata"):      # leave the directory as it was for the other vias
+            for d in {base, root}:
+                try:
+                    os.unlink(os.path.join(d, junk))
+                except OSError:
+                    pass
+        for pos, (j, h) in enumerate(zip(order, handles)):
+            after = [rg.columns[0].file_path for rg in h.row_groups]
+            bad = None
+            if after != before[pos]:
+                bad = "row-group paths of input handle %d changed from %r to %r" % (pos, before[pos][:3], after[:3])
+            else:
+                try:
+                    again = h.to_pandas()
+                    if _canon_frame(again, [c for c in cols if c != "c"]) != _canon_frame(singles[j], [c for c in cols if c != "c"]):
+                        bad = "input handle %d reads differently after the operations" % pos
+                except Exception as e:      # noqa
+                    bad = "input handle %d cannot be read after the operations: %s: %s" % (pos, type(e).__name__, str(e)[:120])
+            if bad:
+                problems.append("sequence: " + bad)
+                if ctx is not None:
+                    ctx.fail(dict(cls0, via="sequence:handles", stage="inputs-mutated"), _replayable(case), problems[-1])
+                break
     if case["bad_schema"] is None and case["cat_mode"] != "differ":
         # ---- correspondence with the merge model, both code paths
         fs = fsspec.filesystem("file")
@@ -473,8 +530,105 @@ def _vias(case, root, pq, ctx, compare, plist, paths, order, uniq_order, base, g
     return {"problems": problems, "vias": vias}
 
 
+# -------------------------------------------------------------------------------------------------- verify_schema
+# one attribute of ONE SchemaElement changed in the footer of a copy of the file (IDL: type, type_length, repetition_type, name,
+# num_children, converted_type, scale, precision, field_id, logicalType and its sub-fields)
+SCHEMA_ATTRS = ["noop", "type", "type_length", "repetition_type", "name", "num_children", "converted_type", "converted_type.time",
+                "scale", "precision", "field_id", "logicalType", "logicalType.isAdjustedToUTC", "logicalType.unit"]
+
+
+def _mutate_schema(fmd, attr):
+    from fastparquet.cencoding import ThriftObject
+    el = {(e.name.decode() if isinstance(e.name, bytes) else e.name): e for e in fmd.schema}
+    if attr == "noop":
+        return
+    if attr == "type":
+        el["o"].type = 1                      # INT64 -> INT32
+    elif attr == "type_length":
+        el["fx"].type_length = 2              # FIXED_LEN_BYTE_ARRAY(4) -> (2)
+    elif attr == "repetition_type":
+        el["id"].repetition_type = 0 if el["id"].repetition_type == 1 else 1
+    elif attr == "name":
+        el["id"].name = "idx"
+    elif attr == "num_children":
+        fmd.schema[0].num_children = fmd.schema[0].num_children - 1
+    elif attr == "converted_type":
+        el["s"].converted_type = None         # UTF8 -> none
+    elif attr == "converted_type.time":
+        el["t"].converted_type = 9            # TIMESTAMP_MICROS -> TIMESTAMP_MILLIS
+    elif attr == "scale":
+        el["id"].scale = 2
+    elif attr == "precision":
+        el["id"].precision = 9
+    elif attr == "field_id":
+        el["id"].field_id = 7
+    elif attr == "logicalType":
+        el["t"].logicalType = None
+    elif attr == "logicalType.isAdjustedToUTC":
+        el["t"].logicalType.TIMESTAMP.isAdjustedToUTC = True
+    elif attr == "logicalType.unit":
+        ts = el["t"].logicalType.TIMESTAMP        # a view on the same underlying dict, keyed by thrift field ids
+        assert ts[2] == {2: {}}, ts[2]             # TimestampType.unit (field 2) = TimeUnit{MICROS (field 2)}
+        ts[2] = {1: {}}                            # -> TimeUnit{MILLIS (field 1)}
+    else:
+        raise ValueError(attr)
+
+
+def check_verify(case, root, pq, ctx=None, verbose=False):
+    """files whose schemas differ (in exactly one attribute of one element) are rejected when verification is requested"""
+    import numpy as np
+    import pandas as pd
+    from fastparquet import write, ParquetFile, writer
+    from fastparquet.cencoding import from_buffer
+    os.makedirs(root, exist_ok=True)
+    attr = case["attr"]
+    df = pd.DataFrame({"id": np.arange(3, dtype="int64"),
+                       "t": pd.to_datetime(["2020-01-01 00:00:00", "2020-01-02 00:00:00", "2020-01-03 00:00:00"]).as_unit("us"),
+                       "fx": np.array([b"abcd", b"efgh", b"ijkl"], dtype=object), "s": pd.Series(["a", "b", "c"], dtype="str"),
+                       "o": pd.array([1, None, 3], dtype="Int64")})
+    f0, f1, f2 = (os.path.join(root, n) for n in ("f0.parquet", "f1.parquet", "f2.parquet"))
+    write(f0, df, fixed_text={"fx": 4})
+    write(f2, df, fixed_text={"fx": 4})
+    b = open(f0, "rb").read()
+    size = int.from_bytes(b[-8:-4], "little")
+    loc = len(b) - 8 - size
+    fmd = from_buffer(b[loc:-8], "FileMetaData")
+    _mutate_schema(fmd, attr)
+    nf = bytes(fmd.to_bytes())
+    open(f1, "wb").write(b[:loc] + nf + len(nf).to_bytes(4, "little") + b"PAR1")
+    problems = []
+    lists = {"second": [f0, f1], "first": [f1, f0], "third-of-3": [f0, f2, f1]}
+    for pos, lst in lists.items():
+        for via in ("list", "merge"):
+            try:
+                if via == "list":
+                    ParquetFile(list(lst), verify=True)
+                else:
+                    writer.merge(list(lst))          # verify_schema=True is merge's default
+                raised = None
+            except Exception as e:      # noqa
+                raised = type(e).__name__
+            finally:
+                for junk in ("_metadata", "_common_metadata"):
+                    try:
+                        os.unlink(os.path.join(root, junk))
+                    except OSError:
+                        pass
+            if attr == "noop" and raised is not None:
+                problems.append("%s, %s: identical schemas rejected with %s" % (via, pos, raised))
+            elif attr != "noop" and raised is None:
+                problems.append("%s with verification, differing file %s: schemas differ in SchemaElement.%s, no error raised" % (via, pos, attr))
+            if problems and ctx is not None and problems[-1].startswith(via):
+                ctx.fail({"component": "verify_schema", "attribute": attr, "via": via}, {"verify_case": case}, problems[-1])
+                problems[-1] = " " + problems[-1]
+    if verbose:
+        for p in problems:
+            print("PROBLEM:", p.strip())
+    return {"problems": problems, "trivial": False, "vias": ["verify:" + attr]}
+
+
 def _replayable(case):
-    return {k: case.get(k) for k in ("shape", "files", "root_mode", "cat_mode", "verify", "bad_schema", "dup", "relative", "junk", "dir_slash")}
+    return {k: case.get(k) for k in ("shape", "files", "root_mode", "cat_mode", "verify", "bad_schema", "dup", "relative", "junk", "dir_slash", "colperm")}
 
 
 def replay(rep):
@@ -487,6 +641,15 @@ def replay(rep):
             return 1
     else:
         case = rep["case"]
+    if "verify_case" in case:
+        tmp = tempfile.mkdtemp(prefix="verif-C14-replay-", dir="/tmp")
+        try:
+            out = C.pmap(lambda c: check_verify(c, os.path.join(tmp, "v"), None, None, verbose=True)["problems"], [case["verify_case"]], nproc=1, job_timeout=300)[0]
+            bad = bool(out) or (isinstance(out, dict) and "__crashed__" in out)
+            print("PROPERTY FAILS" if bad else "property holds on this input", out if isinstance(out, dict) else "")
+            return 1 if bad else 0
+        finally:
+            shutil.rmtree(tmp, ignore_errors=True)
     if "files" not in case:
         from fastparquet import util
         print(json.dumps(case, indent=1))
